@@ -316,13 +316,13 @@ theorem route_fuel_irrelevant (rx : Rx) (req : Option Bytes) :
             simp only [Spec.route, hf, hw]
             rw [ih f2 child _ (by omega) (by omega)]
 
-/-- "from `(o,u)` exactly handler `id` runs, with `args`" — at any sufficient fuel -/
-def RoutesTo (rx : Rx) (req : Option Bytes) (o : Opts) (u : Bytes) (id : Nat) (args : List (Option Bytes)) : Prop :=
-  ∀ fuel, o.depth < fuel → Spec.route rx req fuel o u = (true, [.ran id args])
+/-- "routing `u` from `o` succeeds and what is observed is `evs`" — at any sufficient fuel -/
+def RoutesTo (rx : Rx) (req : Option Bytes) (o : Opts) (u : Bytes) (evs : List Event) : Prop :=
+  ∀ fuel, o.depth < fuel → Spec.route rx req fuel o u = (true, evs)
 
-theorem stepOk_routes {rx : Rx} {req : Option Bytes} {o child : Opts} {u uChild : Bytes} {id : Nat}
-    {args : List (Option Bytes)} (hstep : stepOk rx req o child u uChild = true)
-    (hc : RoutesTo rx req child uChild id args) : RoutesTo rx req o u id args := by
+theorem stepOk_routes {rx : Rx} {req : Option Bytes} {o child : Opts} {u uChild : Bytes} {evs : List Event}
+    (hstep : stepOk rx req o child u uChild = true)
+    (hc : RoutesTo rx req child uChild evs) : RoutesTo rx req o u (stepBefore rx req o u ++ evs) := by
   intro fuel hfuel
   cases fuel with
   | zero => omega
@@ -335,8 +335,8 @@ theorem stepOk_routes {rx : Rx} {req : Option Bytes} {o child : Opts} {u uChild 
       cases e with
       | leaf l => simp [hf] at hstep
       | mount re sel c =>
-        simp only [hf, Bool.and_eq_true, beq_iff_eq, List.isEmpty_iff] at hstep
-        obtain ⟨⟨hcc, hw⟩, hbefore⟩ := hstep
+        simp only [hf, Bool.and_eq_true, beq_iff_eq] at hstep
+        obtain ⟨hcc, hw⟩ := hstep
         subst hcc
         have hmem := List.mem_of_find?_eq_some hf
         have hd := depth_of_mem_level hmem
@@ -344,29 +344,31 @@ theorem stepOk_routes {rx : Rx} {req : Option Bytes} {o child : Opts} {u uChild 
         | none => simp [hwr] at hw
         | some raw =>
           simp only [hwr, beq_iff_eq] at hw
-          simp only [hbefore, hwr, hw, List.nil_append]
+          simp only [hwr, hw, stepBefore]
           rw [hc fuel (by omega)]
           simp
 
 theorem rootOf_cons (child o : Opts) (os : List Opts) : rootOf child (o :: os) = rootOf o os := by
   simp [rootOf, List.getLast_cons]
 
-theorem consistentUp_spec (rx : Rx) (req : Option Bytes) (helpers overrides : List (Bytes × Bytes)) (id : Nat)
-    (args : List (Option Bytes)) :
-    ∀ (up : List (MNode × Bytes)) (os : List Opts) (child : Opts) (uChild : Bytes),
-      consistentUp rx req helpers overrides up os child uChild = true →
-      RoutesTo rx req child uChild id args →
+theorem consistentUp_spec (rx : Rx) (req : Option Bytes) (helpers overrides : List (Bytes × Bytes)) (expected : List Event) :
+    ∀ (up : List (MNode × Bytes)) (os : List Opts) (child : Opts) (uChild : Bytes) (evs : List Event),
+      consistentUp rx req helpers overrides expected up os child uChild evs = true →
+      RoutesTo rx req child uChild evs →
       ∃ ts u, collectUp up = .ok ts ∧ wrapUp helpers overrides ts uChild = .ok u ∧
-        RoutesTo rx req (rootOf child os) u id args := by
+        RoutesTo rx req (rootOf child os) u expected := by
   intro up
   induction up with
   | nil =>
-    intro os child uChild h hr
+    intro os child uChild evs h hr
     cases os with
-    | nil => exact ⟨[], uChild, rfl, rfl, by simpa [rootOf] using hr⟩
+    | nil =>
+      simp only [consistentUp, beq_iff_eq] at h
+      subst h
+      exact ⟨[], uChild, rfl, rfl, by simpa [rootOf] using hr⟩
     | cons o os => simp [consistentUp] at h
   | cons nn up ih =>
-    intro os child uChild h hr
+    intro os child uChild evs h hr
     obtain ⟨n, name⟩ := nn
     cases os with
     | nil => simp [consistentUp] at h
@@ -382,19 +384,19 @@ theorem consistentUp_spec (rx : Rx) (req : Option Bytes) (helpers overrides : Li
         | ok u =>
           simp only [hw, Bool.and_eq_true] at h
           obtain ⟨hstep, hup⟩ := h
-          obtain ⟨ts, u', hts, hwrap, hroot⟩ := ih os o u hup (stepOk_routes hstep hr)
+          obtain ⟨ts, u', hts, hwrap, hroot⟩ := ih os o u _ hup (stepOk_routes hstep hr)
           refine ⟨t :: ts, u', ?_, ?_, ?_⟩
           · simp [collectUp, hg, hts]
           · simp [wrapUp, hw, hwrap]
           · rw [rootOf_cons]; exact hroot
 
 /-- **Local consistency composes**: the URL the mapper builds (below `root`) is routed from the
-outermost application to handler `id` with exactly `args`. -/
+outermost application with exactly the `expected` observations. -/
 theorem consistent_spec (rx : Rx) (req : Option Bytes) (ctx : MCtx) (overrides : List (Bytes × Bytes)) (p : MPos)
-    (cur : Opts) (anc : List Opts) (key : Bytes) (params : List Bytes) (id : Nat) (args : List (Option Bytes))
-    (h : Consistent rx req ctx overrides p cur anc key params id args = true) :
+    (cur : Opts) (anc : List Opts) (key : Bytes) (params : List Bytes) (expected : List Event)
+    (h : Consistent rx req ctx overrides p cur anc key params expected = true) :
     ∃ u, mapRel ctx p key params overrides = .ok u ∧
-      Spec.main rx req (rootOf cur anc) u = [.ran id args] := by
+      Spec.main rx req (rootOf cur anc) u = expected := by
   unfold Consistent at h
   cases hg : getEntry p.cur key params.length with
   | error e => simp [hg] at h
@@ -404,13 +406,13 @@ theorem consistent_spec (rx : Rx) (req : Option Bytes) (ctx : MCtx) (overrides :
     cases hw : writeTpl t params ctx.helpers overrides with
     | error e => simp [hw] at h
     | ok u =>
-      simp only [hw, Bool.and_eq_true, beq_iff_eq] at h
+      simp only [hw, Bool.and_eq_true] at h
       obtain ⟨hleaf, hup⟩ := h
-      have hr : RoutesTo rx req cur u id args := by
+      have hr : RoutesTo rx req cur u (Spec.route rx req (cur.depth + 1) cur u).2 := by
         intro fuel hf
         rw [route_fuel_irrelevant rx req fuel (cur.depth + 1) cur u hf (by omega)]
-        exact hleaf
-      obtain ⟨ts, u', hts, hwrap, hroot⟩ := consistentUp_spec rx req ctx.helpers overrides id args p.up anc cur u hup hr
+        exact Prod.ext hleaf rfl
+      obtain ⟨ts, u', hts, hwrap, hroot⟩ := consistentUp_spec rx req ctx.helpers overrides expected p.up anc cur u _ hup hr
       refine ⟨u', ?_, ?_⟩
       · simp [mapRel, hg, hts, hw, hwrap]
       · unfold Spec.main
